@@ -16,6 +16,9 @@ type An struct {
 	Ro    *Roles
 	R     *Result
 	walks map[*ssa.Function]*Walker
+	// positive-control mode: extra roots analysed as if they were API methods
+	ctlRoots []*ssa.Function
+	onlyCtl  bool
 }
 
 func newAn(p *Program, e *Engine, r *Result, fold bool) *An {
@@ -59,9 +62,21 @@ func (a *An) walk(root *ssa.Function) *Walker {
 
 // roots: the backend's API methods and its reader goroutines.
 func (a *An) roots() []*ssa.Function {
+	if a.onlyCtl {
+		return a.ctlRoots
+	}
 	out := a.Ro.apiRoots()
 	out = append(out, a.Ro.Readers...)
+	out = append(out, a.ctlRoots...)
 	return out
+}
+
+// apiRoots: the API methods (plus control roots in control mode).
+func (a *An) apiRoots() []*ssa.Function {
+	if a.onlyCtl {
+		return a.ctlRoots
+	}
+	return append(a.Ro.apiRoots(), a.ctlRoots...)
 }
 
 func (a *An) require(cond bool, format string, args ...interface{}) bool {
